@@ -486,7 +486,7 @@ def run_scenario(case: dict[str, Any], ctx: Ctx) -> None:
     lay = case["layout"]
     # quick tier: SQLite schedules are expensive (three storage objects per schedule), journal-file
     # ones moderately; the in-memory / fakeredis thread layouts are enumerated completely
-    limit = (24 if "sqlite" in lay else 50 if "journal_file" in lay else 100 if lay.startswith("procs:journal_redis") else 300 if "journal_redis" in lay else 600) if ctx.tier == "quick" else 100000
+    limit = (24 if "sqlite" in lay else 40 if "journal_file" in lay else 70 if lay.startswith("procs:journal_redis") else 300 if "journal_redis" in lay else 600) if ctx.tier == "quick" else 100000
     pts = conc.switch_points(n, len(case["workers"]), limit, case["salt"])
     if "sqlite" in lay and ctx.tier == "quick":
         # quick tier on the SQLite layouts: every preemption next to an SQL statement / commit
@@ -514,7 +514,7 @@ def run_scenario(case: dict[str, Any], ctx: Ctx) -> None:
         # section but not yet used what it computed there), the second anywhere later
         rel = list(LAST_RELEASES)[:10]
         total = sum(n - r for r in rel)
-        stride = max(1, -(-total // (100 if ctx.tier == "quick" else 100000)))
+        stride = max(1, -(-total // (60 if ctx.tier == "quick" else 100000)))
         for r in rel:
             for s2 in range(r + 1 + (r % stride), n, stride):
                 one({r: 0, s2: 0})
@@ -553,19 +553,20 @@ CLASSIC = [
 
 
 def enum_classic(ctx: Ctx, tier: str, shard: int, nshards: int) -> None:
-    jobs = [(lay, name, pre, workers) for lay in LAYOUTS for (name, pre, workers) in CLASSIC]
-    for i, (lay, name, pre, workers) in enumerate(jobs):
-        if i % nshards != shard:
+    jobs = [(li, ci, lay, name, pre, workers) for li, lay in enumerate(LAYOUTS) for ci, (name, pre, workers) in enumerate(CLASSIC)]
+    for i, (li, ci, lay, name, pre, workers) in enumerate(jobs):
+        # (the cost of a job is roughly cost(race) x cost(layout): every shard gets a mix of both)
+        if (li * 5 + ci) % nshards != shard:
             continue
         case = {"layout": lay, "pre": pre, "workers": workers, "multi": [], "salt": i, "pairs": True}
         ctx.sub = "classic"
         run_scenario(case, ctx)
         ctx.event("classic:" + name)
-    ctx.exhaustive_parts.append("the sixteen classic races on all twelve layouts: every single-preemption schedule on the in-memory layout (quick tier: every second yield point on the fakeredis thread layout, 100 / 50 sampled switch points on the 'process' fakeredis / journal-file layouts, every SQL-statement / commit / lock-release boundary plus 8 sampled points on the SQLite layouts, a rotating stride so that a window wider than the stride is always hit; thorough tier: all)")
+    ctx.exhaustive_parts.append("the sixteen classic races on all twelve layouts: every single-preemption schedule on the in-memory layout (quick tier: every second yield point on the fakeredis thread layout, 70 / 40 sampled switch points on the 'process' fakeredis / journal-file layouts, every SQL-statement / commit / lock-release boundary plus 8 sampled points on the SQLite layouts, a rotating stride so that a window wider than the stride is always hit; thorough tier: all)")
 
 
 CHECKS = [
-    Check("scenario", lambda tier: case_scenario(), run_scenario, {"quick": 32, "thorough": 1500}, budget_s={"quick": 170, "thorough": 3000}, shrink=False, case_timeout=1500),
+    Check("scenario", lambda tier: case_scenario(), run_scenario, {"quick": 20, "thorough": 1500}, budget_s={"quick": 170, "thorough": 3000}, shrink=False, case_timeout=1500),
 ]
 ENUMS = [Enum("classic", enum_classic)]
 REPLAY = {"classic": run_scenario}
